@@ -25,7 +25,7 @@ RULE = ("seeded worlds (mask with ring-masked / holes / components families, ani
         "unequal components: |d| from 1e-3 to 100 pixel scales, integer and half-integer multiples of the pixel scale included) x "
         "the entry points below; a case = (world, d); distinct by hash of (mask, scales, o, d); non-trivial = d has two non-zero "
         "unequal components and the mask has masked and unmasked pixels")
-BOUNDS = {"quick": "24 origin pairs x ~45 observed results per pair (+ 4 Hilbert pairs)", "thorough": "640 origin pairs (+ 64 Hilbert pairs)"}
+BOUNDS = {"quick": "24 origin pairs x ~45 observed results per pair (+ 4 Hilbert pairs)", "thorough": "4000 origin pairs (+ 256 Hilbert pairs)"}
 EXHAUSTIVE = {"quick": False, "thorough": False}
 ASSUMPTIONS = ["coordinates compared with 1e-9*max(pixel scale, |d|, |o|); query points are placed at relative offsets >= 1e-3 pixel inside their pixel",
                "Hilbert image mesh: circular masks only (as the property says) and adapt images affine in position"]
@@ -41,8 +41,8 @@ MIN_MONITORS = {"*": dict({"covariance:" + e: 1 for e in ENTRY}, **{"covariance:
 
 
 def plan(tier, seed):
-    n = 24 if tier == "quick" else 640
-    nh = 4 if tier == "quick" else 64
+    n = 24 if tier == "quick" else 4000
+    nh = 4 if tier == "quick" else 256
     step = 2 if tier == "quick" else 8
     units = [{"kind": "pair", "start": s, "stop": min(n, s + step), "w": step} for s in range(0, n, step)]
     units += [{"kind": "hilbert", "start": s, "stop": s + 1, "w": 3} for s in range(nh)]
